@@ -435,6 +435,10 @@ func (p *Parser) parseUseStmt() ast.Statement {
 		Value: p.parseAliasPathShortcut("layouts"),
 	}
 
+	if !p.expectPeek(token.RPAREN) { // move to ")"
+		return nil
+	}
+
 	p.useStmt = stmt
 
 	return stmt
@@ -453,6 +457,10 @@ func (p *Parser) parseBreakIfStmt() ast.Statement {
 
 	stmt.Condition = p.parseExpression(LOWEST)
 
+	if !p.expectPeek(token.RPAREN) { // move to ")"
+		return nil
+	}
+
 	return stmt
 }
 
@@ -468,6 +476,10 @@ func (p *Parser) parseContinueIfStmt() ast.Statement {
 	p.nextToken() // skip "("
 
 	stmt.Condition = p.parseExpression(LOWEST)
+
+	if !p.expectPeek(token.RPAREN) { // move to ")"
+		return nil
+	}
 
 	return stmt
 }
@@ -640,6 +652,10 @@ func (p *Parser) parseReserveStmt() ast.Statement {
 		Value: p.curToken.Literal,
 	}
 
+	if !p.expectPeek(token.RPAREN) { // move to ")"
+		return nil
+	}
+
 	p.reserves[stmt.Name.Value] = stmt
 
 	return stmt
@@ -672,6 +688,10 @@ func (p *Parser) parseInsertStmt() ast.Statement {
 		p.nextToken() // skip insert name
 		p.nextToken() // skip ","
 		stmt.Argument = p.parseExpression(LOWEST)
+
+		if !p.expectPeek(token.RPAREN) { // move to ")"
+			return nil
+		}
 
 		p.inserts[stmt.Name.Value] = stmt
 		hasBody = false
